@@ -135,6 +135,7 @@ def main():
             "baseline_off_cmd": "cd /repo && cargo test --workspace --no-fail-fast --offline",
             "source_commits": [c.split()[0] for c in HOOK_COMMITS],
             "add_only": True,
+            "add_only_note": "no line of the library's own code is rewritten or deleted by any hook commit; 79ee436 (sleep durations) and 74ea389 (notification-faithful waits) extend src/verif.rs - the shim file that ea4a661 added - and in doing so rewrite four lines of that file (the Condvar shim's struct and constructor, its notify_all arm and the sleep arm)",
         },
         "engines": [
             {"name": "E1 ring model", "path": "harness/src/ring.rs", "serves_properties": ["C01", "C02", "C18"],
